@@ -1,9 +1,22 @@
-HOOK_COMMITS = ["e8d87c5", "afbd338", "0cc5209", "6c680dd"]
+HOOK_COMMITS = ["e8d87c5", "afbd338", "0cc5209", "6c680dd", "e0f143d"]
 NOTES = ("Every check re-checks the Coq theorems of coq/Props/<id>.v (full .vo build of their dependencies), rebuilds the "
          "harness from /repo's working tree with -tags verif, and runs the correspondence families of that property. "
          "See DESIGN.md for the trusted base and known_findings.json for recorded defects.")
 NOT_APPLICABLE = {}
 CLAIMED = {
+ "C05": {
+  "text": "Partial. Which byte strings are valid scripts is decided by the generated ANTLR lexer/parser (not modelled, "
+          "cannot be regenerated offline), so the acceptance claim is checked by differential fuzzing, not proved: "
+          "mutated programs, soups, random bytes, reader splits and seeds are loaded and the outcome is judged against an "
+          "independent run of the generated code with its own error listeners. Proved are the hand-written parts on the "
+          "way: the indentation-aware lexer wrapper delivers a complete stream for every base stream unless an "
+          "indentation mixes tabs and blanks (its only panic, recovered into an error), returns EOF at once on empty "
+          "input, seeds over [0-9a-z] are accepted, a runner exists exactly when there is a node and starts at the first.",
+  "design_ref": "DESIGN.md section 5, C05",
+  "note": "Not covered by any theorem: panics and non-termination inside ANTLR's generated code and runtime, and the "
+          "listener on trees produced by error recovery (the repaired FromReader does not walk such trees).",
+  "technique": "Coq proofs for the hand-written loader parts + differential fuzzing against an independent ANTLR syntax check",
+ },
  "C08": {
   "text": "Partial. Proved for the hand-written indentation wrapper (through the NextToken protocol theorem of C20): the "
           "token stream handed to the parser depends only on the order type of the indentation widths (any strictly "
